@@ -185,9 +185,20 @@ def run(ctx):
                     f.write("%s\t%d\t%d\n" % r)
             return rows_of(genome.read_intervals(p, stream=True).compute().get_data())
 
+        def c_file_track():
+            p = ctx.path("c12.bdg")
+            with open(p, "w") as f:
+                for i_, r_ in enumerate(rows):
+                    f.write("%s\t%d\t%d\t%d\n" % (r_[0], r_[1], r_[2], i_ + 1))
+            d = genome.read_track(p, stream=True).get_data()
+            d = d.compute() if hasattr(d, "compute") and not hasattr(d, "chromosome") else d
+            vals = np.asarray(d.value).tolist()
+            return [r_ for r_, v in zip(rows_of(d), vals) if v != 0]
+
         consumers = [("get_intervals.compute", c_compute), ("get_mask.get_data", c_mask), ("get_pileup.get_data", c_pileup), ("merged.compute", c_merged), ("clip.compute", c_clip), ("get_track.get_data", c_track)]
         if not cuts:
             consumers.append(("read_intervals(stream=True).compute", c_file))
+            consumers.append(("read_track(stream=True).get_data", c_file_track))
         for cname, fn in consumers:
             out = attempt(fn)
             judge(cname, case, out, out[1] if out[0] == "ok" else None, included, valid, why)
